@@ -67,6 +67,11 @@ func c15GenAssign(r *Rng, f *c15File, cont bool) []string {
 	if r.Chance(5) {
 		sp = Pick(r, []string{" ", "  ", "\t"})
 		f.feat("space-after-varname")
+		if r.Chance(40) {
+			// a name with blanks of its own (inside an expression): only the blank before the operator may go
+			name = "XY_ARGS." + Pick(r, []string{"${OPSYS:S, ,_,g}", "${XY_P:S,  ,_,g}", "${XY_P:M* *}", "${XY_P:S,\t,_,}"})
+			f.feat("space-after-varname.name-with-blanks")
+		}
 	}
 	val := c15GenValue(r)
 	if op == "!=" && val != "" {
@@ -81,6 +86,10 @@ func c15GenAssign(r *Rng, f *c15File, cont bool) []string {
 		if r.Chance(6) {
 			first += Pick(r, []string{" ", "\t", " \t "})
 			f.feat("trailing-blanks")
+		} else if r.Chance(4) {
+			// a backslash followed by blanks: the line is NOT continued
+			first += Pick(r, c15BackslashBlank)
+			f.feat("backslash-blank")
 		}
 		return []string{first}
 	}
@@ -112,11 +121,17 @@ func c15GenAssign(r *Rng, f *c15File, cont bool) []string {
 		l := Pick(r, c15MoreBlanks) + Pick(r, c15Words)
 		if i < n {
 			l = bs(l)
+		} else if r.Chance(6) {
+			l += Pick(r, c15BackslashBlank) // the last line of a continuation: ends the logical line
+			f.feat("backslash-blank")
 		}
 		lines = append(lines, l)
 	}
 	return lines
 }
+
+// ends of lines that look like a continuation but are none
+var c15BackslashBlank = []string{" \\ ", "\\ ", " \\\t", " \\  ", " \\\\ ", "\t\\ \t"}
 
 func c15GenParagraph(r *Rng, f *c15File, cont bool) []string {
 	var ls []string
@@ -125,6 +140,9 @@ func c15GenParagraph(r *Rng, f *c15File, cont bool) []string {
 		ls = append(ls, c15GenAssign(r, f, cont)...)
 		if r.Chance(6) {
 			ls = append(ls, "# a comment between the assignments")
+		} else if r.Chance(2) {
+			ls = append(ls, "# a comment that ends like a continuation"+Pick(r, c15BackslashBlank))
+			f.feat("backslash-blank")
 		}
 	}
 	f.feat("paragraph")
@@ -165,6 +183,10 @@ func c15GenTarget(r *Rng, f *c15File) []string {
 	if r.Chance(25) {
 		ls = append(ls, "\t\t${ECHO} one \\", "\t\t\ttwo \\", "\t\tthree")
 		f.feat("shell.multiline")
+	}
+	if r.Chance(10) {
+		ls = append(ls, Pick(r, []string{"\t", "\t\t"})+"${ECHO} four"+Pick(r, c15BackslashBlank), "\t${ECHO} five")
+		f.feat("backslash-blank")
 	}
 	f.feat("target")
 	return ls
@@ -343,6 +365,7 @@ func c15WholeEvaluate(c *c15Checker, wc c15WholeCase, seedInfo map[string]any) {
 	foreign := ""
 	// attribute every AUTOFIX line of the real run to the note printed before it in the -f run
 	var lastNote string
+	kindAt := map[string]map[int]string{"Makefile": {}, "extra.mk": {}}
 	for _, l := range strings.Split(wc.out0, "\n") {
 		d, ok := ParseDiag(l)
 		if !ok {
@@ -351,6 +374,17 @@ func c15WholeEvaluate(c *c15Checker, wc c15WholeCase, seedInfo map[string]any) {
 		if d.Level != "AUTOFIX" {
 			lastNote = d.Msg
 			continue
+		}
+		if m := kindAt[filepath.Base(d.Path)]; m != nil && d.Line1 > 0 {
+			// several fixers may touch one line; the one that works at the end of the line (where a
+			// line is joined with the next) names the key, otherwise the first one
+			if k := c15FixKindOfNote(lastNote); k != "" {
+				for ln := d.Line1; ln <= d.Line2; ln++ {
+					if m[ln] == "" || k == "trim" {
+						m[ln] = k
+					}
+				}
+			}
 		}
 		isLayout := false
 		for _, n := range c15LayoutNotes {
@@ -379,7 +413,7 @@ func c15WholeEvaluate(c *c15Checker, wc c15WholeCase, seedInfo map[string]any) {
 	}
 	// settle (canonical separation, <= 72) is evaluated per single-line paragraph by property();
 	// the silent second pass is demanded for files in which every assignment is a single line
-	c.property(c15Opts{what: "wholerun", settle: true}, wc.before, wc.after, pb.Before, pa.Before, replay)
+	c.property(c15Opts{what: "wholerun", settle: true, kindAt: kindAt["Makefile"]}, wc.before, wc.after, pb.Before, pa.Before, replay)
 	if wc.file.extra != "" {
 		// the fragment next to the Makefile, byte for byte: same final-newline state, same line ends,
 		// and the property on its lines ("\r" and the other exotic bytes are ordinary bytes of the line)
@@ -405,7 +439,7 @@ func c15WholeEvaluate(c *c15Checker, wc c15WholeCase, seedInfo map[string]any) {
 				c.viol("C15/whole/reparse-panic", xpb.Panicked+xpa.Panicked, true, c15Size(xb), replay)
 				return
 			}
-			c.property(c15Opts{what: "wholerun", settle: true}, xb, xa, xpb.Before, xpa.Before, replay)
+			c.property(c15Opts{what: "wholerun", settle: true, kindAt: kindAt["extra.mk"]}, xb, xa, xpb.Before, xpa.Before, replay)
 		}
 	}
 	if wc.file.singleOnly {
